@@ -123,6 +123,11 @@ func runC07(r *core.Run) {
 				x := vals[rng.Intn(len(vals))]
 				lim = map[string]interface{}{"k": "n", "n": x}
 				sql += fmt.Sprintf(" LIMIT %d", x)
+				if rng.Intn(8) == 0 {
+					// a number beyond every integer: more than there are rows (1000000 stands for it in the event)
+					lim = map[string]interface{}{"k": "n", "n": 1000000}
+					sql = strings.TrimSuffix(sql, fmt.Sprintf(" LIMIT %d", x)) + " LIMIT " + []string{"1e30", "9223372036854775808", "'1e19'"}[rng.Intn(3)]
+				}
 			case 1:
 				p := []int{-5, 0, 1, 10, 33, 50, 99, 100, 150}[rng.Intn(9)]
 				lim = map[string]interface{}{"k": "pct", "n": p}
@@ -137,6 +142,10 @@ func runC07(r *core.Run) {
 		if rng.Intn(2) == 0 && !(tiecut && rng.Intn(2) == 0) {
 			m = vals[rng.Intn(len(vals))]
 			sql += fmt.Sprintf(" OFFSET %d", m)
+			if rng.Intn(10) == 0 {
+				m = 1000000
+				sql = sql[:strings.LastIndex(sql, " OFFSET ")] + " OFFSET 1e30"
+			}
 		}
 		cpu := []int{1, 4, 8}[rng.Intn(3)]
 		x := newRelRun(r, cpu, t)
